@@ -268,6 +268,67 @@ impl C11 {
 				break;
 			}
 		}
+		// ---- going on after an error. The property compares one deserialization of one byte string; on ONE state, the
+		// next deserialization is that of the bytes that follow, so it is comparable exactly when both paths stand at the
+		// same position — which is the case after an error raised by the CALLER's type on a leaf that both paths had
+		// read completely (a refused string, an alternative hint that does not fit). Whatever a failed read leaves
+		// behind in the reader's state must not leak into the next value.
+		if !out.failed() && slice_out.items.iter().any(|x| x.is_err()) {
+			out.count("long_stream_continued_after_errors", 1);
+			let attempts = 2 * n as usize + 8;
+			let s = world::decode_stream_slice_stepwise(&schema, &env, &scn.schema, &bytes, attempts, scn.target, scn.limits);
+			out.evals += 1;
+			if let Some(p) = &s.panicked {
+				out.fail(format!("C11:stream:slice-panic:{}", crate::runner::panic_site(p)), format!("going on after errors, after {} attempts: {p}", s.items.len()));
+				return;
+			}
+			for kind in plans.iter().filter(|k| matches!(k, ReaderKind::Direct(_))) {
+				let (r, stats) = world::decode_stream_reader_ext(&schema, &env, &scn.schema, &bytes, attempts, scn.target, scn.limits, kind, false);
+				out.evals += 1;
+				out.steps += stats.calls;
+				digest.u64(stats.digest).u64(r.items.len() as u64);
+				if let Some(p) = &r.panicked {
+					out.fail(format!("C11:stream:reader-panic:{}", crate::runner::panic_site(p)), format!("plan {}: going on after errors, after {} attempts: {p}", kind.label(), r.items.len()));
+					return;
+				}
+				if stats.budget_exhausted {
+					out.fail("C11:stream:livelock", format!("source step budget exhausted with {} (going on after errors)", kind.label()));
+					return;
+				}
+				let mut compared = 0;
+				for i in 0..s.items.len().min(r.items.len()) {
+					if i > 0 && s.positions[i - 1] != r.positions[i - 1] {
+						// the two paths stand at different positions after an error: nothing is promised from here on
+						break;
+					}
+					compared += 1;
+					match (&s.items[i], &r.items[i]) {
+						(Ok(a), Ok(b)) if a != b => {
+							out.fail("C11:stream:value-differs:after-an-error", format!("plan {}: attempt #{i} (both paths at byte {}): slice gave {a:?}, reader gave {b:?}", kind.label(), if i > 0 { s.positions[i - 1] } else { 0 }));
+							return;
+						}
+						(Ok(_), Ok(_)) => {
+							if s.positions[i] != r.positions[i] {
+								out.fail("C11:stream:consumed-differs:after-an-error", format!("plan {}: attempt #{i}: slice now at {}, reader at {}", kind.label(), s.positions[i], r.positions[i]));
+								return;
+							}
+						}
+						(Ok(_), Err(e)) => {
+							out.fail("C11:stream:slice-ok-reader-err:after-an-error", format!("plan {}: attempt #{i} (both paths at byte {}): slice decoded, reader failed with: {e}", kind.label(), if i > 0 { s.positions[i - 1] } else { 0 }));
+							return;
+						}
+						(Err(e), Ok(v)) => {
+							out.fail("C11:stream:slice-err-reader-ok:after-an-error", format!("plan {}: attempt #{i}: slice failed with {e}, reader decoded {v:?}", kind.label()));
+							return;
+						}
+						(Err(_), Err(_)) => {}
+					}
+				}
+				if compared > 1 {
+					out.count("long_stream_attempts_compared_after_an_error", compared as u64 - 1);
+				}
+			}
+		}
 		out.digest = digest.get();
 	}
 
@@ -525,7 +586,11 @@ impl Prop for C11 {
 				_ => 500 + rng.below(700) as u32,
 			};
 			let pattern = rng.below(7) as u8;
-			let target = if rng.chance(2, 3) { Target::capture() } else { gen_target(rng) };
+			let target = match rng.below(6) {
+				0..=2 => Target::capture(),
+				3 => Target::Reject,
+				_ => gen_target(rng),
+			};
 			return Scn {
 				mode: Mode::Stream { seed: rng.next_u64(), n: if pattern == 2 || pattern == 3 || pattern == 6 { n.min(700) } else { n }, pattern },
 				schema,
